@@ -85,7 +85,8 @@ def _wire_check(chk, pid, rule):
     wire_replay(chk, nd, WIRE_STAGES[pid])
     # impl -> spec: records recombined from the vectors' field values (field interactions), encoded by the real codec
     tp = os.path.join(WORK, f"{pid.lower()}_cross.ndjson")
-    out = harness(["wire-cross", "--vectors", nd, "--out", tp, "--seed", str(chk.seed), "--per", "150" if chk.tier == "thorough" else "30"])
+    out = harness(["wire-cross", "--vectors", nd, "--out", tp, "--seed", str(chk.seed), "--per", "150" if chk.tier == "thorough" else "30",
+                   "--dense", "5000" if chk.tier == "thorough" else "500"])
     wire_trace_validate(chk, f"{pid.lower()}_cross", tp, "recombined record")
     chk.assumptions += ["the oracle is spec/LfsWire.tla, a transcription of InSim.txt (v9) and the relay description made from memory (no network); "
                         "time-unit remarks and the signedness of char fields are outside the oracle",
